@@ -51,7 +51,7 @@ fn body(c: &Case, ch: &Chooser) -> Outcome {
     let rt = vnet::runtime(7);
     let c2 = c.clone();
     let ch2 = ch.clone();
-    let (trace, invocations, model_trace, model_inv) = rt.block_on(async move {
+    let (trace, invocations, model_trace, model_inv, unready) = rt.block_on(async move {
         let c = c2;
         let (st, rx) = vnet::connector_state(c.initial, c.delayed, c.chop);
         let script = Script { initial_md: vec![], msgs: vec![vec![42]], end: None, handler_err: false, bidi: BidiMode::Ignore, disable_compression: false, exact_hint: false };
@@ -160,7 +160,7 @@ fn body(c: &Case, ch: &Chooser) -> Outcome {
             }
         }
         srv.abort();
-        (trace, st.invocations.load(Ordering::SeqCst), m_trace, m_inv)
+        (trace, st.invocations.load(Ordering::SeqCst), m_trace, m_inv, st.unready_calls.load(Ordering::SeqCst))
     });
     drop(rt);
     let mut o = Outcome::new(format!("trace={trace:?} connector_invocations={invocations}"));
@@ -180,6 +180,9 @@ fn body(c: &Case, ch: &Chooser) -> Outcome {
     }
     if trace.len() != model_trace.len() && o.violations.is_empty() {
         o.violate("outcome-count", format!("trace {trace:?} vs model {model_trace:?}"));
+    }
+    if unready > 0 {
+        o.violate("connector-called-without-poll-ready", format!("the connector was called {unready} time(s) without a preceding poll_ready on that instance: a connector that enforces the tower contract (ConcurrencyLimit, Buffer, RateLimit) panics there, which kills the channel's worker and fails every later call"));
     }
     if invocations != model_inv && o.violations.is_empty() {
         o.violate("connector-invocations", format!("connector invoked {invocations} times, RefChannel expects {model_inv} (one attempt per call issued while disconnected, plus the eager connect)"));
@@ -371,7 +374,7 @@ pub fn property(tier: Tier) -> Property {
     let sec = Section::new(
         "fault-scripts",
         Config { hang_secs: 60, ..Default::default() },
-        "cases: every event script up to length 6 (thorough 9) over {call, call with an already expired deadline (own outcome unjudged), connector-starts-failing, connector-starts-succeeding, peer-drops-the-established-connection} (canonical: no repeated mode settings/drops, ending in a call) (plus scripts with a connector that never answers, ended only by Endpoint::connect_timeout) x lazy/eager channel x initial connector mode x {immediate / Pending-once connector, pipe fragmentation pattern, Endpoint timeouts}; real Endpoint::connect_with_connector[_lazy] -> Channel -> hyper/h2 over in-memory pipes -> Server::serve_with_incoming in virtual time, each event followed by quiescence; RefChannel (connected?, mode) stepped in lock-step: eager initial failure => connect error at once; call while connected => answer; call while disconnected => exactly one connector invocation, UNAVAILABLE to that call only if it fails, success if it succeeds; never a hang (virtual horizon) or panic; connector invocation count equals the model's. Non-trivial = script contains a fault (drop / failing mode) and a call.",
+        "cases: every event script up to length 6 (thorough 9) over {call, call with an already expired deadline (own outcome unjudged), connector-starts-failing, connector-starts-succeeding, peer-drops-the-established-connection} (canonical: no repeated mode settings/drops, ending in a call) (plus scripts with a connector that never answers, ended only by Endpoint::connect_timeout) x lazy/eager channel x initial connector mode x {immediate / Pending-once connector, pipe fragmentation pattern, Endpoint timeouts}; real Endpoint::connect_with_connector[_lazy] -> Channel -> hyper/h2 over in-memory pipes -> Server::serve_with_incoming in virtual time, each event followed by quiescence; RefChannel (connected?, mode) stepped in lock-step: eager initial failure => connect error at once; call while connected => answer; call while disconnected => exactly one connector invocation, UNAVAILABLE to that call only if it fails, success if it succeeds; never a hang (virtual horizon) or panic; connector invocation count equals the model's; the connector (which keeps the tower contract, rotates its failures through six io::ErrorKinds and lets a quarter of them be caused by a gRPC status of its own) is never called without a preceding poll_ready. Non-trivial = script contains a fault (drop / failing mode) and a call.",
         cases,
         |c: &Case| format!("lazy={} initial={:?} delayed={} chop={} timeouts={} script={:?}", c.lazy, c.initial, c.delayed, c.chop, c.timeouts, c.script),
         body,
